@@ -468,7 +468,8 @@ func (g *G) valueType(d int, lim int) cadence.Type {
 	case 6:
 		return g.directComposite(lim)
 	case 7:
-		return cadence.NewInclusiveRangeType(g.rangeElementType())
+		// the static type of a range value always has a concrete element type
+		return cadence.NewInclusiveRangeType(pick(g, IntegerTypes))
 	case 8:
 		return cadence.NewCapabilityType(g.borrowType(d - 1))
 	case 9:
